@@ -140,6 +140,8 @@ def _c10_ff(v):
 def _c12(v):
     d = v.get('detail') or {}
     msg = (d.get('message') or '').replace('SyntaxError: ', '')
+    if msg.startswith('f-string: '):
+        msg = msg[len('f-string: '):]      # the same rule firing inside an f-string replacement field
     return d, msg, d.get('mech') or {}, tuple(d.get('version_tuple') or (0, 0))
 
 
@@ -173,7 +175,7 @@ def _c12_fs_backslash(v):
 @classifier('c12_fstring_nested_spec_312')
 def _c12_fs_nested(v):
     d, msg, mech, ver = _c12(v)
-    return msg == 'f-string: expressions nested too deeply' and ver >= (3, 12)
+    return msg == 'expressions nested too deeply' and ver >= (3, 12)
 
 
 @classifier('c12_import_binding_then_global')
@@ -371,3 +373,11 @@ def _c12_await_ann(v):
     compile such annotations, so it never checks the await"""
     d, msg, mech, ver = _c12(v)
     return msg == "'await' outside async function" and 'annassign' in (d.get('ancestors') or []) and mech.get('innermost_scope') == 'funcdef'
+
+
+@classifier('c14_fstring_backslash_brace')
+def _c14_fs_bs(v):
+    """F-C14-2 (mechanism of F-C12-1/F-C10-3): the program contains an f-string with a backslash directly before a brace;
+    parso tokenizes it differently from CPython without an error node, so leaves exist where CPython sees string text"""
+    d = v.get('detail') or {}
+    return d.get('fstring_backslash_brace') is True
